@@ -8,6 +8,7 @@ import (
 	"os"
 	"strings"
 	"sync"
+	"sync/atomic"
 	"time"
 
 	erpc "github.com/henrylee2cn/erpc/v6"
@@ -42,6 +43,7 @@ type sessRun struct {
 	calls map[string]*callObs
 	fin   map[string]chan struct{}
 	nfq   []int32
+	ended    int32
 	curReply int32  // seq of the reply the reader is currently bound to (0: none)
 	sentq [][2]int32 // frames written by the raw peer, in order: {kind(1 reply,2 call), seq}
 	drift []string
@@ -49,6 +51,10 @@ type sessRun struct {
 	expBody  map[int32]string
 	wmu2  sync.Mutex
 	closed map[string]bool
+	holds  map[string]*Behav // free mode: handler holds by inbound call id
+	replied  map[string]bool // calls to which the raw peer sent a reply
+	connDown bool
+	anyBad   bool
 }
 
 type callObs struct {
@@ -58,6 +64,8 @@ type callObs struct {
 }
 
 const stepWait = 3 * time.Second
+
+var hangsSeen int32
 
 func drvSess(args []string) int {
 	fs := flag.NewFlagSet("sess", flag.ExitOnError)
@@ -147,6 +155,8 @@ func (r *sessRun) run(n int, seed int64) {
 	r.wireSeen = map[int32]bool{}
 	r.expBody = map[int32]string{}
 	r.closed = map[string]bool{}
+	r.holds = map[string]*Behav{}
+	r.replied = map[string]bool{}
 	r.app.ClearBehav()
 	r.g.ResetHits()
 	r.rec.SetTrace(sc.ID, map[string]interface{}{"mode": sc.Mode, "s": r.sn})
@@ -195,12 +205,20 @@ func (r *sessRun) run(n int, seed int64) {
 		}
 	}
 	// end of schedule: let everything run, then observe quiescence
+	if len(r.holds) > 0 && r.closeInProgress() {
+		// a Close() that fails to wait for held handlers gets the time to return first
+		time.Sleep(5 * time.Millisecond)
+	}
+	for _, b := range r.holds {
+		releaseHold(b)
+	}
 	r.g.ReleaseAll()
 	r.g.Record(false)
 	r.g.Jitter(0, 0)
 	r.quiesce()
 	r.rec.Emit("End", "s", r.sn, "drift", len(r.drift))
 	// tidy up (a session wedged by a defect must not wedge the driver)
+	r.rec.Emit("ConnDown", "s", r.sn, "tidy", true)
 	r.b.Close()
 	fin := make(chan struct{})
 	go func() { r.sess.Close(); close(fin) }()
@@ -208,7 +226,37 @@ func (r *sessRun) run(n int, seed int64) {
 	case <-fin:
 	case <-time.After(300 * time.Millisecond):
 	}
+	// let the observers of this run finish before the next trace starts
+	WaitUntil(600*time.Millisecond, func() bool {
+		for _, co := range r.calls {
+			select {
+			case <-co.done:
+			default:
+				return false
+			}
+		}
+		return true
+	})
+	atomic.StoreInt32(&r.ended, 1)
 	r.rec.Flush()
+}
+
+func releaseHold(b *Behav) {
+	defer func() { recover() }()
+	close(b.Hold)
+}
+
+func (r *sessRun) closeInProgress() bool {
+	for name, ch := range r.fin {
+		if strings.HasPrefix(name, "close:") {
+			select {
+			case <-ch:
+			default:
+				return true
+			}
+		}
+	}
+	return false
 }
 
 func (g *Gates) jitterOff() { g.mu.Lock(); g.jitter = 0; g.mu.Unlock() }
@@ -218,6 +266,7 @@ func (r *sessRun) startCall(id string) {
 	r.nseq++
 	seq := r.nseq
 	r.seqOf[id] = seq
+	hitsBefore := r.g.Hits("call.seq")
 	co := &callObs{ch: make(chan erpc.CallCmd, 4), done: make(chan struct{})}
 	r.calls[id] = co
 	fin := make(chan struct{})
@@ -231,11 +280,22 @@ func (r *sessRun) startCall(id string) {
 	go func() {
 		res := new(Res)
 		cmd := r.sess.AsyncCall(CallRoute, &Arg{Tag: tag}, res, co.ch, erpc.WithSetMeta(MetaKey, "m-"+tag))
+		if cmd == nil {
+			// AsyncCall must return the command of the call: without it the caller can never learn the outcome
+			r.rec.Emit("CallNil", "c", id, "s", r.sn)
+			cmd = erpc.NewFakeCallCmd(CallRoute, nil, nil, erpc.NewStatus(-1, "nil CallCmd", ""))
+		}
 		co.cmd = cmd
 		close(ready)
 		r.rec.Emit("CallRet", "c", id, "s", r.sn, "seq", cmd.Output().Seq())
 		close(fin)
 	}()
+	// sequence numbers are allocated in the order the calls are started
+	if !WaitUntil(500*time.Millisecond, func() bool { return r.g.Hits("call.seq") > hitsBefore }) {
+		r.driftf("call %s did not allocate its sequence number", id)
+	} else if got := int32(r.g.LastA("call.seq")); got != seq {
+		r.driftf("call %s got seq %d, expected %d", id, got, seq)
+	}
 	go func() {
 		<-ready
 		<-co.cmd.Done()
@@ -260,6 +320,10 @@ func (r *sessRun) startCall(id string) {
 		rmeta := ""
 		if m := co.cmd.InputMeta(); m != nil {
 			rmeta = string(m.Peek(MetaKey))
+		}
+		if atomic.LoadInt32(&r.ended) != 0 {
+			close(co.done)
+			return // a late completion of a run that is over must not leak into the next trace
 		}
 		r.rec.Emit("CallDone", "c", id, "s", r.sn, "code", st.Code(), "msg", st.Msg(), "res", rt, "rmeta", rmeta, "deliveries", deliveries,
 			"okres", rt == F(tag), "okmeta", rmeta == GM("m-"+tag))
@@ -359,6 +423,10 @@ func (r *sessRun) sendReply(c string, kind string) {
 	err := r.rawWrite(m)
 	if err == nil {
 		r.sentq = append(r.sentq, [2]int32{1, seq})
+		r.replied[c] = true
+		if kind != "good" {
+			r.anyBad = true
+		}
 	}
 	r.rec.Emit("RemoteReply", "c", c, "s", r.sn, "seq", seq, "kind", kind, "err", err != nil)
 }
@@ -376,6 +444,11 @@ func (r *sessRun) sendCall(h string) {
 	r.wmu2.Lock()
 	r.expBody[seq] = `"` + F(tag) + `"`
 	r.wmu2.Unlock()
+	if r.sc.Mode == "free" {
+		b := &Behav{Hold: make(chan struct{}), Entered: make(chan struct{})}
+		r.holds[h] = b
+		r.app.SetBehav(tag, b)
+	}
 	err := r.rawWrite(m)
 	if err == nil {
 		r.sentq = append(r.sentq, [2]int32{2, seq})
@@ -467,6 +540,7 @@ func (r *sessRun) strictStep(act, id string) bool {
 		return true
 	case "ConnDown":
 		r.rec.Emit("ConnDown", "s", r.sn)
+		r.connDown = true
 		r.b.Close()
 		return true
 	// ---- reader
@@ -699,12 +773,25 @@ func (r *sessRun) freeStep(act, id string) {
 		r.sendCall(id)
 	case "ConnDown":
 		r.rec.Emit("ConnDown", "s", r.sn)
+		r.connDown = true
 		r.b.Close()
 	case "HEnter":
-		// give the handler a chance to be entered before the next application action
-		seq := r.hSeq(id)
-		_ = seq
-		time.Sleep(300 * time.Microsecond)
+		// wait (briefly) until the application handler has really been entered
+		if b := r.holds[id]; b != nil {
+			select {
+			case <-b.Entered:
+			case <-time.After(30 * time.Millisecond):
+			}
+		}
+	case "HCheck":
+		// the application handler returns now; if a Close() is in progress give a Close that
+		// fails to wait the time to return first, so that the trace shows it
+		if b := r.holds[id]; b != nil {
+			if r.closeInProgress() {
+				time.Sleep(3 * time.Millisecond)
+			}
+			releaseHold(b)
+		}
 	default:
 		if strings.HasPrefix(act, "Cl") || strings.HasPrefix(act, "Rd") {
 			time.Sleep(50 * time.Microsecond)
@@ -715,12 +802,19 @@ func (r *sessRun) freeStep(act, id string) {
 // quiesce waits for the run to settle and records the observations of Layer P.
 func (r *sessRun) quiesce() {
 	start := time.Now()
+	// a call is expected to complete if its reply was sent, the connection is down or the reader failed;
+	// a Close() is expected to return unless a call is legitimately still waiting for its reply
+	expectDone := func(c string) bool { return r.replied[c] || r.connDown || r.anyBad }
 	settled := func() bool {
-		for _, co := range r.calls {
+		legitPending := false
+		for c, co := range r.calls {
 			select {
 			case <-co.done:
 			default:
-				return false
+				if expectDone(c) {
+					return false
+				}
+				legitPending = true
 			}
 		}
 		for name, ch := range r.fin {
@@ -728,7 +822,9 @@ func (r *sessRun) quiesce() {
 				select {
 				case <-ch:
 				default:
-					return false
+					if !legitPending {
+						return false
+					}
 				}
 			}
 		}
@@ -737,9 +833,15 @@ func (r *sessRun) quiesce() {
 	ok := WaitUntil(2*time.Second, settled)
 	var blocked []string
 	if !ok {
-		// second stage: wait longer, then classify
-		ok = WaitUntil(8*time.Second, settled)
+		// second stage: wait longer, then classify (once hangs have been seen twice in this
+		// process, later scenarios do not pay for the long wait again)
+		long := 8 * time.Second
+		if atomic.LoadInt32(&hangsSeen) >= 2 {
+			long = 500 * time.Millisecond
+		}
+		ok = WaitUntil(long, settled)
 		if !ok {
+			atomic.AddInt32(&hangsSeen, 1)
 			blocked = Blocked("erpc/v6.(*session)", "erpc/v6.(*handlerCtx)", "erpc/v6.(*callCmd)")
 		}
 	}
